@@ -164,6 +164,7 @@ type env struct {
 	case0 string
 	// the next request carries the headers of a websocket upgrade
 	upgrade bool
+	spoof   bool // the request also carries headers with which a client claims a role for itself
 }
 
 func isAPI(path string) bool { return path == prefix || strings.HasPrefix(path, prefix+"/") }
@@ -584,6 +585,14 @@ func (e *env) do(method, target string, body []byte, c cred) *httptest.ResponseR
 		req.Header.Set("Sec-WebSocket-Version", "13")
 		req.Header.Set("Sec-WebSocket-Key", "dGhlIHNhbXBsZSBub25jZQ==")
 	}
+	if e.spoof {
+		// nothing a client sends besides its credential says who it is
+		for _, h := range []string{"X-Auth-Role", "X-Role", "X-User-Role", "X-Auth-Admin", "X-Is-Admin", "X-Admin", "X-Forwarded-User", "X-Authenticated-User", "X-Token-Role"} {
+			req.Header.Set(h, "admin")
+		}
+		req.Header.Set("X-Is-Admin", "true")
+		req.Header.Set("X-Auth-Admin", "1")
+	}
 	w := httptest.NewRecorder()
 	e.st.Engine.ServeHTTP(w, req)
 	return w
@@ -948,6 +957,18 @@ func (e *env) runPoint() {
 						continue
 					}
 					e.probe(rt, fs[fi], cs[ci])
+					if class != clAdmin {
+						// the same request with headers in which the client calls itself an administrator
+						fs, cs = e.fillings(rt), e.creds(class)
+						if fi < len(fs) && ci < len(cs) {
+							e.spoof = true
+							c := cs[ci]
+							c.shape += " + X-Auth-Role: admin (and similar self-declared role headers)"
+							e.probe(rt, fs[fi], c)
+							e.spoof = false
+							r.Count("requests_with_self_declared_role_headers", 1)
+						}
+					}
 					if class == clNone || class == clUnknown || class == clRevoked {
 						// the same request dressed up as a websocket upgrade: still an API request
 						fs, cs = e.fillings(rt), e.creds(class)
